@@ -1,4 +1,575 @@
+/-
+C27 — recordings are playable up to the last complete part at any crash point.  Property theorems.
+
+(R) reader: `prefix_parts` — on ANY crash image (prefix at any byte offset, optionally followed by any number
+    of zero bytes) of a file `hdr ++ part₁ … partₙ`, the moof/mdat scan of the playback server accepts exactly
+    the parts whose moof box and mdat header lie inside the kept prefix; hence every complete part is counted
+    (`complete_parts_counted`), nothing after the first incomplete part is (`accepted` is a prefix of the part
+    list), and at most ONE counted part is incomplete (`overcount_at_most_one`: its moof is intact, its mdat
+    payload is torn).  `moofLoop_eq_scan` links `scan` to the model of the real loop that C28 ties to the code.
+(W) writer: by induction over arbitrary sample sequences — segment numbers of one instance are consecutive from
+    0 (`numbers_consecutive`, hence `consecutive_concat`); the part being assembled in memory (= what a crash
+    loses besides the torn tail) consists of samples ending less than `partDuration` after the part's start,
+    plus at most one more sample (`unflushed_bound`); a closed segment's header holds its duration to the
+    millisecond (`closed_duration`).
+-/
 import MtxVerif.Model.C27
+import MtxVerif.Props.C28
+
 namespace MtxVerif.C27
-theorem placeholder : True := trivial
+
+open MtxVerif.C28 (rd32 byteAt tagAt tMoof tMdat u32 moofLoop)
+
+/-! ### bytes -/
+
+theorem get?_mid (a b c : Bytes) (j : Nat) (h : j < b.length) : (a ++ b ++ c)[a.length + j]? = b[j]? := by
+  rw [List.append_assoc, List.getElem?_append_right (by omega), List.getElem?_append_left (by omega)]
+  congr 1; omega
+
+theorem byteAt_eq (f : Bytes) (i : Nat) : byteAt f i = (f[i]?.getD 0).toNat := by
+  simp [byteAt, List.getD_eq_getElem?_getD]
+
+theorem rd32_congr (f g : Bytes) (p q : Nat) (h : ∀ j < 4, f[p + j]? = g[q + j]?) : rd32 f p = rd32 g q := by
+  unfold rd32
+  rw [byteAt_eq, byteAt_eq, byteAt_eq, byteAt_eq, byteAt_eq, byteAt_eq, byteAt_eq, byteAt_eq]
+  have h0 := h 0 (by omega); have h1 := h 1 (by omega); have h2 := h 2 (by omega); have h3 := h 3 (by omega)
+  simp only [Nat.add_zero] at h0
+  rw [h0, h1, h2, h3]
+
+theorem tagAt_get? (f : Bytes) (p j : Nat) (hj : j < 4) : (tagAt f p)[j]? = f[p + j]? := by
+  simp [tagAt, List.getElem?_take, List.getElem?_drop, hj]
+
+theorem tagAt_length_le (f : Bytes) (p : Nat) : (tagAt f p).length ≤ 4 := by
+  simp [tagAt]; omega
+
+theorem tagAt_eq_of (f : Bytes) (p : Nat) (t : Bytes) (ht : t.length = 4) (h : ∀ j < 4, f[p + j]? = t[j]?) :
+    tagAt f p = t := by
+  apply List.ext_getElem?
+  intro j
+  by_cases hj : j < 4
+  · rw [tagAt_get? f p j hj]; exact h j hj
+  · have h1 : (tagAt f p)[j]? = none := by
+      apply List.getElem?_eq_none; have := tagAt_length_le f p; omega
+    have h2 : t[j]? = none := by apply List.getElem?_eq_none; omega
+    rw [h1, h2]
+
+theorem be32_length (n : Nat) : (be32 n).length = 4 := rfl
+
+theorem rd32_be32 (n : Nat) (h : n < u32) : rd32 (be32 n) 0 = n := by
+  unfold rd32 byteAt be32
+  simp only [List.getD_cons_zero, List.getD_cons_succ, Nat.zero_add]
+  simp only [UInt8.toNat_ofNat']
+  unfold u32 at h
+  omega
+
+/-! ### crash images -/
+
+theorem image_length (F : Bytes) (k z : Nat) : (image F k z).length = min k F.length + z := by
+  simp [image]
+
+theorem image_lt (F : Bytes) (k z i : Nat) (hk : i < k) (hF : i < F.length) : (image F k z)[i]? = F[i]? := by
+  unfold image
+  rw [List.getElem?_append_left (by simp; omega), List.getElem?_take, if_pos hk]
+
+theorem image_ge (F : Bytes) (k z i : Nat) (hk : k ≤ i) (hi : i < (image F k z).length) :
+    (image F k z)[i]? = some 0 := by
+  rw [image_length] at hi
+  unfold image
+  by_cases h : i < (F.take k).length
+  · simp at h; omega
+  · rw [List.getElem?_append_right (by omega), List.getElem?_replicate, if_pos]
+    simp; omega
+
+/-! ### one part -/
+
+/-- the four header fields of the first part of `pre ++ encPart p ++ tail` -/
+theorem part_fields (pre tail : Bytes) (p : Part) :
+    let F := pre ++ encPart p ++ tail
+    (∀ j < 4, F[pre.length + j]? = (be32 (moofLen p))[j]?) ∧
+    (∀ j < 4, F[pre.length + 4 + j]? = tMoof[j]?) ∧
+    (∀ j < 4, F[pre.length + moofLen p + j]? = (be32 (p.mdat.length + 8))[j]?) ∧
+    (∀ j < 4, F[pre.length + moofLen p + 4 + j]? = tMdat[j]?) := by
+  intro F
+  have e1 : F = pre ++ be32 (moofLen p) ++ (tMoof ++ p.moof ++ box tMdat p.mdat ++ tail) := by
+    simp [F, encPart, box, moofLen, List.append_assoc]
+  have e2 : F = (pre ++ be32 (moofLen p)) ++ tMoof ++ (p.moof ++ box tMdat p.mdat ++ tail) := by
+    simp [F, encPart, box, moofLen, List.append_assoc]
+  have e3 : F = (pre ++ box tMoof p.moof) ++ be32 (p.mdat.length + 8) ++ (tMdat ++ p.mdat ++ tail) := by
+    simp [F, encPart, box, List.append_assoc]
+  have e4 : F = (pre ++ box tMoof p.moof ++ be32 (p.mdat.length + 8)) ++ tMdat ++ (p.mdat ++ tail) := by
+    simp [F, encPart, box, List.append_assoc]
+  have l2 : (pre ++ be32 (moofLen p)).length = pre.length + 4 := by simp [be32_length]
+  have l3 : (pre ++ box tMoof p.moof).length = pre.length + moofLen p := by
+    simp [box, be32_length, moofLen, tMoof, asc]; omega
+  have l4 : (pre ++ box tMoof p.moof ++ be32 (p.mdat.length + 8)).length = pre.length + moofLen p + 4 := by
+    simp [box, be32_length, moofLen, tMoof, asc]; omega
+  refine ⟨?_, ?_, ?_, ?_⟩
+  · intro j hj; rw [e1]; exact get?_mid _ _ _ j (by simp [be32_length]; exact hj)
+  · intro j hj; rw [e2, ← l2]; exact get?_mid _ _ _ j (by simp [tMoof, asc]; exact hj)
+  · intro j hj; rw [e3, ← l3]; exact get?_mid _ _ _ j (by simp [be32_length]; exact hj)
+  · intro j hj; rw [e4, ← l4]; exact get?_mid _ _ _ j (by simp [tMdat, asc]; exact hj)
+
+theorem encPart_length (p : Part) : (encPart p).length = partLen p := by
+  simp [encPart, box, be32_length, partLen, tMoof, tMdat, asc]; omega
+
+theorem rd32_of_be32 (f : Bytes) (q n : Nat) (hn : n < u32) (h : ∀ j < 4, f[q + j]? = (be32 n)[j]?) :
+    rd32 f q = n := by
+  rw [rd32_congr f (be32 n) q 0 (by intro j hj; rw [h j hj]; simp)]
+  exact rd32_be32 n hn
+
+theorem tMoof_last : tMoof[3]? = some 102 := by decide
+theorem tMdat_last : tMdat[3]? = some 116 := by decide
+
+/-- if the byte at `q+3` is zero the tag at `q` is neither "moof" nor "mdat" -/
+theorem tag_ne_of_zero (f : Bytes) (q : Nat) (h : f[q + 3]? = some 0) : tagAt f q ≠ tMoof ∧ tagAt f q ≠ tMdat := by
+  constructor
+  · intro e
+    have := tagAt_get? f q 3 (by omega)
+    rw [e, tMoof_last, h] at this
+    cases this
+  · intro e
+    have := tagAt_get? f q 3 (by omega)
+    rw [e, tMdat_last, h] at this
+    cases this
+
+/-! ### prefix_parts -/
+
+/-- **prefix_parts.**  For every header `pre`, every list of well-formed parts, every cut offset `k` and every
+number `z` of zero bytes after the cut: the scan of the crash image accepts exactly the parts whose moof box and
+mdat header lie within the first `k` bytes. -/
+theorem prefix_parts : ∀ (ps : List Part) (pre : Bytes) (k z fuel : Nat), (∀ p ∈ ps, p.wf) →
+    k < fuel + pre.length →
+    scan (image (pre ++ encParts ps) k z) fuel pre.length = accepted pre.length k ps := by
+  intro ps
+  induction ps with
+  | nil =>
+    intro pre k z fuel _ hf
+    cases fuel with
+    | zero => simp [scan, accepted]
+    | succ n =>
+      simp only [encParts, List.append_nil, accepted]
+      unfold scan
+      split
+      · rfl
+      · rename_i hlen
+        -- there is nothing but (part of) the header and zeros at `pre.length`
+        have hi : pre.length + 4 + 3 < (image pre k z).length := by omega
+        have hz : (image pre k z)[pre.length + 4 + 3]? = some 0 := by
+          by_cases hk : k ≤ pre.length + 4 + 3
+          · exact image_ge _ _ _ _ hk hi
+          · rw [image_length] at hi
+            -- k > pre.length + 7: the index is beyond `pre`, inside the zeros
+            unfold image
+            rw [List.getElem?_append_right (by simp; omega), List.getElem?_replicate, if_pos]
+            · simp; omega
+        have := (tag_ne_of_zero _ _ hz).1
+        rw [if_pos (by simpa using this)]
+  | cons p rest ih =>
+    intro pre k z fuel hwf hf
+    have hp := hwf p List.mem_cons_self
+    cases fuel with
+    | zero =>
+      unfold accepted
+      rw [if_neg (by omega)]
+      rfl
+    | succ n =>
+      have hF : pre ++ encParts (p :: rest) = pre ++ encPart p ++ encParts rest := by
+        simp [encParts, List.append_assoc]
+      rw [hF]
+      obtain ⟨f1, f2, f3, f4⟩ := part_fields pre (encParts rest) p
+      generalize hFd : pre ++ encPart p ++ encParts rest = F at f1 f2 f3 f4
+      have hFlen : F.length = pre.length + partLen p + (encParts rest).length := by
+        rw [← hFd]; simp [encPart_length]; omega
+      have hM : moofLen p < u32 := hp.1
+      have hD : p.mdat.length + 8 < u32 := hp.2
+      have hpl : partLen p = moofLen p + (p.mdat.length + 8) := rfl
+      have hm8 : 8 ≤ moofLen p := by unfold moofLen; omega
+      unfold scan accepted
+      by_cases hacc : pre.length + moofLen p + 8 ≤ k
+      · -- accepted: both headers are inside the kept prefix
+        rw [if_pos hacc]
+        have hlen : (image F k z).length ≥ pre.length + moofLen p + 8 := by rw [image_length]; omega
+        rw [if_neg (by omega)]
+        have t1 : tagAt (image F k z) (pre.length + 4) = tMoof :=
+          tagAt_eq_of _ _ _ rfl (fun j hj => by rw [image_lt F k z _ (by omega) (by omega)]; exact f2 j hj)
+        rw [if_neg (by simp [t1])]
+        have r1 : rd32 (image F k z) pre.length = moofLen p :=
+          rd32_of_be32 _ _ _ hM (fun j hj => by rw [image_lt F k z _ (by omega) (by omega)]; exact f1 j hj)
+        simp only [r1]
+        rw [if_neg (by omega)]
+        have t2 : tagAt (image F k z) (pre.length + moofLen p + 4) = tMdat :=
+          tagAt_eq_of _ _ _ rfl (fun j hj => by rw [image_lt F k z _ (by omega) (by omega)]; exact f4 j hj)
+        rw [if_neg (by simp [t2])]
+        have r2 : rd32 (image F k z) (pre.length + moofLen p) = p.mdat.length + 8 :=
+          rd32_of_be32 _ _ _ hD (fun j hj => by rw [image_lt F k z _ (by omega) (by omega)]; exact f3 j hj)
+        rw [r2]
+        have hpre : pre.length + moofLen p + (p.mdat.length + 8) = (pre ++ encPart p).length := by
+          simp [encPart_length]; omega
+        have hoff : pre.length + partLen p = (pre ++ encPart p).length := by simp [encPart_length]
+        rw [hpre, hoff, ← hFd]
+        congr 1
+        exact ih (pre ++ encPart p) k z n (fun q hq => hwf q (List.mem_cons_of_mem _ hq))
+          (by simp [encPart_length]; unfold partLen; omega)
+      · -- rejected: one of the two headers is cut
+        rw [if_neg hacc]
+        by_cases hl1 : (image F k z).length < pre.length + 8
+        · rw [if_pos hl1]
+        · rw [if_neg hl1]
+          by_cases hk8 : pre.length + 8 ≤ k
+          · -- moof header intact, mdat header cut
+            have t1 : tagAt (image F k z) (pre.length + 4) = tMoof :=
+              tagAt_eq_of _ _ _ rfl (fun j hj => by rw [image_lt F k z _ (by omega) (by omega)]; exact f2 j hj)
+            rw [if_neg (by simp [t1])]
+            have r1 : rd32 (image F k z) pre.length = moofLen p :=
+              rd32_of_be32 _ _ _ hM (fun j hj => by rw [image_lt F k z _ (by omega) (by omega)]; exact f1 j hj)
+            simp only [r1]
+            by_cases hl2 : (image F k z).length < pre.length + moofLen p + 8
+            · rw [if_pos hl2]
+            · rw [if_neg hl2]
+              have hz : (image F k z)[pre.length + moofLen p + 4 + 3]? = some 0 :=
+                image_ge _ _ _ _ (by omega) (by omega)
+              have := (tag_ne_of_zero _ _ hz).2
+              rw [if_pos (by simpa using this)]
+          · -- moof header cut
+            have hz : (image F k z)[pre.length + 4 + 3]? = some 0 := image_ge _ _ _ _ (by omega) (by omega)
+            have := (tag_ne_of_zero _ _ hz).1
+            rw [if_pos (by simpa using this)]
+
+/-! ### corollaries -/
+
+/-- `complete` (parts entirely inside the prefix) is a prefix of `accepted`: every complete part is counted -/
+theorem complete_parts_counted : ∀ (ps : List Part) (off k : Nat),
+    complete off k ps <+: accepted off k ps := by
+  intro ps
+  induction ps with
+  | nil => intro off k; simp [complete, accepted]
+  | cons p r ih =>
+    intro off k
+    unfold complete accepted
+    by_cases hc : off + partLen p ≤ k
+    · have : off + moofLen p + 8 ≤ k := by unfold partLen at hc; unfold moofLen; omega
+      rw [if_pos hc, if_pos this]
+      exact List.prefix_cons_inj _ |>.mpr (ih _ _)
+    · rw [if_neg hc]; exact List.nil_prefix
+
+/-- at most one counted part is not complete (and it is the last counted one) -/
+theorem overcount_at_most_one : ∀ (ps : List Part) (off k : Nat),
+    (accepted off k ps).length ≤ (complete off k ps).length + 1 := by
+  intro ps
+  induction ps with
+  | nil => intro off k; simp [complete, accepted]
+  | cons p r ih =>
+    intro off k
+    unfold complete accepted
+    by_cases ha : off + moofLen p + 8 ≤ k
+    · rw [if_pos ha]
+      by_cases hc : off + partLen p ≤ k
+      · rw [if_pos hc]; simp; exact ih _ _
+      · rw [if_neg hc]
+        -- the next part starts beyond k: nothing more is accepted
+        have : accepted (off + partLen p) k r = [] := by
+          cases r with
+          | nil => rfl
+          | cons q r' => unfold accepted; rw [if_neg (by omega)]
+        simp [this]
+    · rw [if_neg ha]; simp
+
+/-- the file cut at its very end (or not cut at all): every part is counted -/
+theorem whole_file_all_parts : ∀ (ps : List Part) (off k : Nat),
+    off + (encParts ps).length ≤ k → (accepted off k ps).length = ps.length := by
+  intro ps
+  induction ps with
+  | nil => intro off k _; rfl
+  | cons p r ih =>
+    intro off k h
+    have hl : (encParts (p :: r)).length = partLen p + (encParts r).length := by
+      simp [encParts, encPart_length]
+    unfold accepted
+    rw [if_pos (by unfold partLen at hl; unfold moofLen; omega)]
+    simp
+    exact ih _ _ (by omega)
+
+/-! ### link to the model of the real loop (C28.moofLoop, tied to the code by C28's harness) -/
+
+theorem moofLoop_eq_scan (f : Bytes) : ∀ (fuel pos : Nat) (last : Option Nat),
+    moofLoop f fuel pos last ≠ none →
+    moofLoop f fuel pos last = some (((scan f fuel pos).getLast?).or last) := by
+  intro fuel
+  induction fuel with
+  | zero => intro pos last h; simp [moofLoop] at h
+  | succ n ih =>
+    intro pos last h
+    unfold moofLoop at h ⊢
+    unfold scan
+    split
+    · simp
+    · split
+      · simp
+      · simp only []
+        split
+        · simp
+        · split
+          · simp
+          · rename_i h1 h2 h3 h4
+            simp only [h1, h2, h3, h4, if_false] at h
+            rw [ih _ _ h]
+            congr 1
+            cases hs : scan f n (pos + rd32 f pos + rd32 f (pos + rd32 f pos)) with
+            | nil => simp
+            | cons a l =>
+              rw [List.getLast?_cons_cons]
+              cases hl : (a :: l).getLast? with
+              | none => simp at hl
+              | some v => simp
+
+/-- **What the real duration loop selects on a crash image**: the last part whose moof and mdat header survived
+(`none` = "no moof boxes found").  Combines `prefix_parts` with the model of the loop that C28 ties to the code
+and its termination proof. -/
+theorem reader_selects_last_accepted (ps : List Part) (pre : Bytes) (k z : Nat) (hwf : ∀ p ∈ ps, p.wf)
+    (hk : k ≤ (pre ++ encParts ps).length) :
+    moofLoop (image (pre ++ encParts ps) k z) ((image (pre ++ encParts ps) k z).length + 1) pre.length none
+      = some ((accepted pre.length k ps).getLast?) := by
+  have hnh := C28.moofLoop_no_hang (image (pre ++ encParts ps) k z)
+    ((image (pre ++ encParts ps) k z).length + 1) pre.length none (by omega) (by omega)
+  rw [moofLoop_eq_scan _ _ _ _ hnh, prefix_parts ps pre k z _ hwf (by rw [image_length]; omega)]
+  simp
+
+/-! ### (W) writer invariants -/
+
+/-- in-memory part: everything but the sample written last ended less than `partDur` after the part's start -/
+def PartBound (c : Cfg) (p : PartSt) : Prop :=
+  ∃ (initl : List WS) (lastw : WS), p.all = initl ++ [lastw] ∧
+    (∀ w ∈ initl, w.fin - p.start < c.partDur) ∧ (∀ w ∈ p.all, w.fin ≤ p.fin)
+
+theorem addToPart_all (p : PartSt) (w : WS) (b : Nat) : (addToPart p w b).all = p.all ++ [w] := by
+  unfold addToPart; rfl
+
+theorem addToPart_fin (p : PartSt) (w : WS) (b : Nat) : (addToPart p w b).fin = max p.fin w.fin := by
+  unfold addToPart; rfl
+
+theorem addToPart_start (p : PartSt) (w : WS) (b : Nat) : (addToPart p w b).start = p.start := by
+  unfold addToPart; rfl
+
+theorem partBound_fresh (c : Cfg) (w : WS) (b : Nat) : PartBound c (addToPart ⟨w.dts, 0, [], []⟩ w b) := by
+  refine ⟨[], w, by simp [addToPart_all], by simp, ?_⟩
+  intro x hx
+  rw [addToPart_all] at hx
+  simp at hx; subst hx
+  rw [addToPart_fin]; exact Nat.le_max_right _ _
+
+/-- **loss bound** (one step): after `formatFMP4Segment.write`, the part still in memory satisfies `PartBound` -/
+theorem segWrite_bound (c : Cfg) (sg : SegSt) (w : WS) (rate : Nat)
+    (h : ∀ p, sg.cur = some p → PartBound c p) :
+    ∀ p, (segWrite c sg w rate).cur = some p → PartBound c p := by
+  intro p hp
+  unfold segWrite at hp
+  simp only [] at hp
+  split at hp
+  · simp at hp; subst hp; exact partBound_fresh c w _
+  · rename_i q hq
+    have hq' : sg.cur = some q := hq
+    obtain ⟨il, lw, e1, e2, e3⟩ := h q hq'
+    split at hp
+    · simp at hp; subst hp; exact partBound_fresh c w _
+    · rename_i hdur
+      simp at hp; subst hp
+      refine ⟨q.all, w, by rw [addToPart_all], ?_, ?_⟩
+      · intro x hx
+        rw [addToPart_start]
+        have := e3 x hx
+        omega
+      · intro x hx
+        rw [addToPart_all] at hx
+        rw [addToPart_fin]
+        rcases List.mem_append.mp hx with hx | hx
+        · have := e3 x hx; omega
+        · simp at hx; subst hx; exact Nat.le_max_right _ _
+
+/-- state invariant of the writer -/
+structure Inv (c : Cfg) (s : St) : Prop where
+  /-- numbers of the files written so far are 0,1,2,… -/
+  nums : s.files.map (·.number) = List.range s.files.length
+  /-- the open segment carries the next number, and `nextNumber` is one ahead -/
+  segNum : ∀ sg, s.seg = some sg → sg.number = s.files.length ∧ s.nextNumber = s.files.length + 1
+  noSeg : s.seg = none → s.closed = false → s.nextNumber = s.files.length
+  /-- the open segment has written something unless it has just been created by a switch -/
+  bound : ∀ sg p, s.seg = some sg → sg.cur = some p → PartBound c p
+
+theorem segClose_number (sg : SegSt) (f : FileSt) (h : segClose sg = some f) : f.number = sg.number := by
+  unfold segClose at h
+  split at h
+  · cases h
+  · injection h with h; rw [← h]
+
+theorem segClose_some_of_cur (sg : SegSt) (p : PartSt) (h : sg.cur = some p) : ∃ f, segClose sg = some f := by
+  unfold segClose segParts
+  rw [h]
+  simp
+
+theorem segWrite_cur_some (c : Cfg) (sg : SegSt) (w : WS) (rate : Nat) :
+    ∃ p, (segWrite c sg w rate).cur = some p := by
+  unfold segWrite
+  simp only []
+  split
+  · exact ⟨_, rfl⟩
+  · split <;> exact ⟨_, rfl⟩
+
+theorem segWrite_number (c : Cfg) (sg : SegSt) (w : WS) (rate : Nat) :
+    (segWrite c sg w rate).number = sg.number := by
+  unfold segWrite
+  simp only []
+  split
+  · rfl
+  · split <;> rfl
+
+theorem range_succ_map (l : List FileSt) (f : FileSt) (h : l.map (·.number) = List.range l.length)
+    (hf : f.number = l.length) : (l ++ [f]).map (·.number) = List.range (l ++ [f]).length := by
+  simp [List.range_succ, h, hf]
+
+theorem init_inv (c : Cfg) : Inv c (init c) :=
+  ⟨by simp [init], by intro sg h; simp [init] at h, by intro _ _; simp [init], by intro sg p h; simp [init] at h⟩
+
+/-- closing the instance keeps the numbering -/
+theorem closeInst_nums (c : Cfg) (s : St) (h : Inv c s) :
+    (closeInst s).files.map (·.number) = List.range (closeInst s).files.length ∧ (closeInst s).seg = none ∧
+    (closeInst s).closed = true := by
+  unfold closeInst
+  split
+  · exact ⟨h.nums, by assumption, rfl⟩
+  · rename_i sg hseg
+    refine ⟨?_, rfl, rfl⟩
+    cases hc : segClose sg with
+    | none => simpa [hc] using h.nums
+    | some f =>
+      have hf := segClose_number sg f hc
+      have := (h.segNum sg hseg).1
+      simpa [hc] using range_succ_map s.files f h.nums (by omega)
+
+theorem curSeg_facts (c : Cfg) (s : St) (h : Inv c s) (hcl : s.closed = false) (dts : Nat) (ntp : Int) :
+    (curSeg s dts ntp).number = s.files.length ∧ curNext s = s.files.length + 1 ∧
+    (∀ p, (curSeg s dts ntp).cur = some p → PartBound c p) := by
+  unfold curSeg curNext
+  cases hs : s.seg with
+  | none =>
+    have := h.noSeg hs hcl
+    exact ⟨by simp [freshSeg, this], by simp [this], by intro p e; simp [freshSeg] at e⟩
+  | some sg0 =>
+    exact ⟨(h.segNum sg0 hs).1, (h.segNum sg0 hs).2, fun p e => h.bound sg0 p hs e⟩
+
+/-- **one write preserves the invariant** (every branch of formatFMP4Track.write) -/
+theorem write_inv (c : Cfg) (s : St) (x : In) (h : Inv c s) : Inv c (write c s x) := by
+  unfold write
+  split
+  · exact h
+  · rename_i hclosed
+    have hcl : s.closed = false := by simpa using hclosed
+    split
+    · -- first sample of the track: only stored
+      exact ⟨h.nums, h.segNum, h.noSeg, h.bound⟩
+    · rename_i smp hsmp
+      simp only []
+      split
+      · -- drift error: the instance closes
+        have hinv1 : Inv c { s with hasVideo := s.hasVideo || isVideo c x.track,
+                                    pend := s.pend.set x.track (some (adjNext x smp)),
+                                    startI := newStartI s x.track (mkWS c x smp).dts smp.ntp } :=
+          ⟨h.nums, h.segNum, h.noSeg, h.bound⟩
+        have := closeInst_nums c _ hinv1
+        refine ⟨this.1, ?_, ?_, ?_⟩
+        · intro sg e; rw [this.2.1] at e; cases e
+        · intro _ e; rw [this.2.2] at e; cases e
+        · intro sg p e; rw [this.2.1] at e; cases e
+      · have F := curSeg_facts c s h hcl (mkWS c x smp).dts smp.ntp
+        split
+        · -- late sample discarded
+          refine ⟨h.nums, ?_, by intro e; simp at e, ?_⟩
+          · intro sg' e; simp at e; subst e; exact ⟨F.1, F.2.1⟩
+          · intro sg' p e; simp at e; subst e; exact F.2.2 p
+        · split
+          · -- segment switch: the segment just written into is closed, it has a file
+            obtain ⟨p, hp⟩ := segWrite_cur_some c (curSeg s (mkWS c x smp).dts smp.ntp) (mkWS c x smp) (rateOf c x.track)
+            obtain ⟨f, hc⟩ := segClose_some_of_cur _ p hp
+            have hf := segClose_number _ f hc
+            rw [segWrite_number] at hf
+            refine ⟨?_, ?_, by intro e; simp at e, ?_⟩
+            · simpa [hc] using range_succ_map s.files f h.nums (by omega)
+            · intro sg' e
+              simp at e; subst e
+              simp [hc, freshSeg]; omega
+            · intro sg' p' e e2
+              simp at e; subst e
+              simp [freshSeg] at e2
+          · -- ordinary write
+            refine ⟨h.nums, ?_, by intro e; simp at e, ?_⟩
+            · intro sg' e; simp at e; subst e
+              rw [segWrite_number]; exact ⟨F.1, F.2.1⟩
+            · intro sg' p e e2
+              simp at e; subst e
+              exact segWrite_bound c _ _ _ F.2.2 p e2
+
+theorem run_inv (c : Cfg) : ∀ (l : List In) (s : St), Inv c s → Inv c (run c s l) := by
+  intro l
+  induction l with
+  | nil => intro s h; exact h
+  | cons x r ih => intro s h; exact ih _ (write_inv c s x h)
+
+theorem close_files_nums (c : Cfg) (s : St) (h : Inv c s) :
+    (close s).files.map (·.number) = List.range (close s).files.length := by
+  unfold close
+  split
+  · exact h.nums
+  · exact (closeInst_nums c s h).1
+
+/-- **Segment numbers**: for every sample sequence, at every moment (crash) and after a normal close, the
+files of one recorder instance are numbered 0,1,2,… in creation order. -/
+theorem numbers_consecutive (c : Cfg) (l : List In) :
+    (close (run c (init c) l)).files.map (·.number) = List.range (close (run c (init c) l)).files.length ∧
+    (crash (run c (init c) l)).map (·.number) = List.range (crash (run c (init c) l)).length := by
+  have hi := run_inv c l (init c) (init_inv c)
+  refine ⟨close_files_nums c _ hi, ?_⟩
+  unfold crash
+  split
+  · exact hi.nums
+  · rename_i sg hseg
+    unfold segCrash
+    split
+    · simpa using hi.nums
+    · have := (hi.segNum sg hseg).1
+      simpa using range_succ_map _ ⟨sg.number, sg.startDTS, sg.startNTP, 0, sg.flushed⟩ hi.nums (by simpa using this)
+
+/-- hence consecutive files of one instance are recognised as continuous by the playback server
+(segmentFMP4CanBeConcatenated: same stream id, number + 1) -/
+theorem consecutive_concat (sid n i : Nat) (hi : i + 1 < n) :
+    canConcat sid ((List.range n)[i]'(by simp; omega)) sid ((List.range n)[i + 1]'(by simp; omega)) = true := by
+  simp [canConcat]
+
+/-- and files of different instances never are -/
+theorem different_instance_no_concat (s1 s2 n1 n2 : Nat) (h : s1 ≠ s2) : canConcat s1 n1 s2 n2 = false := by
+  simp [canConcat, h]
+
+/-- **Loss bound**: at every moment of every recording, the part that exists only in memory consists of samples
+that ended less than `partDuration` after the part's start, plus at most one more sample. -/
+theorem unflushed_bound (c : Cfg) (l : List In) (sg : SegSt) (p : PartSt)
+    (h1 : (run c (init c) l).seg = some sg) (h2 : sg.cur = some p) : PartBound c p :=
+  (run_inv c l (init c) (init_inv c)).bound sg p h1 h2
+
+/-- **Closed duration**: what the playback server reads back from a closed header is the segment's duration
+`d = endDTS - startDTS` rounded down to the millisecond (for d < 2^32 ms ≈ 49 days). -/
+theorem closed_duration (d : Nat) (h : d / 1000000 < u32) :
+    readHdr ((d / 1000000) % u32) ≤ d ∧ d < readHdr ((d / 1000000) % u32) + 1000000 := by
+  rw [Nat.mod_eq_of_lt h]
+  unfold readHdr
+  omega
+
+/-! ### non-vacuity -/
+
+def exParts : List Part := [⟨[1, 2, 3], [9]⟩, ⟨[4], [8, 8]⟩]
+
+example : (pre : Bytes) = pre := rfl
+example : accepted 2 1000 exParts = [2, 22] := by decide
+example : accepted 2 20 exParts = [] := by decide          -- mdat header of part 1 ends at 21
+example : accepted 2 21 exParts = [2] := by decide         -- moof + mdat header inside, payload torn: counted
+example : complete 2 21 exParts = [] := by decide
+example : scan (image ([7, 7] ++ encParts exParts) 21 5) 30 2 = [2] := by decide
+
 end MtxVerif.C27
